@@ -112,6 +112,10 @@ def run(F, R):
     _roles = _c5.classify_api(_c5.queue_api(F, M))
     z8_pcm_complete(F, R, M, _roles, rule='P12')
     z7_release_after_pop(F, RuleProxy(R, {'Z7': 'P12'}), M, _roles)
+    # P16: a blocking helper unshares its buffers against its own chain: the token it pops is the one its add returned, never
+    # whatever the used ring shows next (another request's device addresses would be paired with these buffers) - C03.E8
+    from .C03 import e8_helper_token
+    e8_helper_token(F, R, M, _roles, rule='P16')
     p14_pinned_buffers(F, R, M, _roles)
     p15_owned_buffers_parked(F, R, M, _roles)
     # P13: a buffer is unshared in the direction it was shared in: the block driver's completion calls present the same
